@@ -298,7 +298,8 @@ type Result struct {
 	Caps     sx.T
 	PackSize int
 	Msgs     [][][]byte
-	Partial  [][]byte // packets of a message that was never finished
+	PreMsgs  [][][]byte // messages of an earlier login attempt on the same connection
+	Partial  [][]byte   // packets of a message that was never finished
 	ErrText  string
 }
 
@@ -340,6 +341,7 @@ func Run(cfg Cfg, replies [][]byte, prelude [][]byte) (res Result) {
 	}
 	res = oneLogin(conn, ch, p, cfg)
 	if skip <= len(res.Msgs) {
+		res.PreMsgs = res.Msgs[:skip]
 		res.Msgs = res.Msgs[skip:]
 	}
 	return res
@@ -674,6 +676,17 @@ func (p *Prepared) Exec() {
 	ptt := sx.L{}
 	var symkey []byte
 	fresh := 1
+	// the session key of an earlier attempt on the same connection counts as seen
+	if len(res.PreMsgs) >= 2 {
+		_, pcts := BlankCiphertexts(res.PreMsgs[1])
+		if len(pcts) > 0 {
+			if pt := Decrypt(s.Key, pcts[len(pcts)-1]); len(pt) >= 32 {
+				seenMu.Lock()
+				seenKeys[string(pt[len(pt)-32:])] = true
+				seenMu.Unlock()
+			}
+		}
+	}
 	if complete2 {
 		for i, ct := range cts {
 			pt := Decrypt(s.Key, ct)
